@@ -715,11 +715,13 @@ func bigCases(run *hx.Run, r *hx.Rng) []hx.Case {
 	for _, n := range []int{4095, 4096, 4097, 8193} {
 		file(bigFileDesc{N: n, Seed: seed(), Note: "chunk boundary"})
 	}
-	file(bigFileDesc{N: 4097, Seed: seed(), ZN: true, Note: "chunk boundary, zero normals"})
+	if thorough {
+		file(bigFileDesc{N: 4097, Seed: seed(), ZN: true, Note: "chunk boundary, zero normals"})
+	}
 	file(bigFileDesc{N: 4097, Seed: seed(), Cut: 1 + r.Intn(49), Note: "chunk boundary, last record cut short"})
 	file(bigFileDesc{N: 4096, Seed: seed(), Extra: 1 + r.Intn(60), Note: "chunk boundary, trailing bytes"})
 	counts := boundaryCounts(20000)
-	pickN := 3
+	pickN := 2
 	if thorough {
 		pickN = len(counts)
 	}
@@ -730,7 +732,7 @@ func bigCases(run *hx.Run, r *hx.Rng) []hx.Case {
 		}
 		file(bigFileDesc{N: n, Seed: seed(), ZN: r.Chance(1, 4), Note: "power of two / chunk multiple +-1"})
 	}
-	extra := 2
+	extra := 1
 	if thorough {
 		extra = 24
 		file(bigFileDesc{N: 20000, Seed: seed(), Note: "largest"})
@@ -753,7 +755,7 @@ func bigCases(run *hx.Run, r *hx.Rng) []hx.Case {
 	mesh(bigMeshDesc{N: 4096, NV: 3 * 4096, A: 3*4096 - 1, C: 3*4096 - 1, Seed: seed(), NDir: ndir(), Note: "reversed: as many indices as vertices"})
 	mesh(bigMeshDesc{N: 4097, NV: 61, A: 7, B: 1, C: 3, Part: r.Intn(3), Seed: seed(), NDir: ndir(), Note: "welded over few vertices"})
 	mesh(bigMeshDesc{N: 4099, NV: 4099, A: 5, B: 2, C: 1, Seed: seed(), NDir: ndir(), Note: "as many vertices as triangles"})
-	nm := 2
+	nm := 1
 	if thorough {
 		nm = 30
 	}
